@@ -61,6 +61,12 @@ func (w *World) assetNet(chain string) (string, string) {
 //   maker:  "await_fee" (out_receiver only) | "await_agreement" (in_sender only) | "await_claim" | "wait_csv"
 //   taker:  "await_agreement" (out_sender only) | "await_opening" | "await_conf"
 func (w *World) Prepare(role, chain, stage string) (*Swap, error) {
+	return w.PrepareWith(Peer, role, chain, stage)
+}
+
+// PrepareWith: the same with another counterparty (new swaps that run next to the
+// swap under test use a third node, so that the peer's standing does not matter).
+func (w *World) PrepareWith(Peer, role, chain, stage string) (*Swap, error) {
 	k, _ := btcec.NewPrivateKey()
 	s := &Swap{Role: role, Chain: chain, Scid: nextScid(), Amount: 1000000, PeerKey: k}
 	asset, net := w.assetNet(chain)
@@ -127,10 +133,11 @@ func (w *World) Prepare(role, chain, stage string) (*Swap, error) {
 		}
 		return s, nil
 	}
+	w.PeerOpening(s) // the simulated maker broadcasts; the announcement is in s.Otb
 	if stage == "await_opening" {
 		return s, nil
 	}
-	if err := w.Deliver(Peer, w.PeerOpening(s)); err != nil {
+	if err := w.Deliver(Peer, s.Otb); err != nil {
 		return nil, err
 	}
 	return s, nil
